@@ -1,5 +1,7 @@
 //! Shared machinery of the correspondence harness: PRNG, in-process interpreter runner,
 //! canonicaliser, Lean-driver pipe, report writer.  One binary per property lives in src/bin.
+pub mod coreast;
+pub mod coregen;
 use noulith::nnum::NNum;
 use noulith::{evaluate, initialize, parse, Env, NErr, Obj, Rc, RefCell, Seq, TopEnv};
 use std::collections::BTreeMap;
